@@ -1430,6 +1430,11 @@ def lib_arc_cond(seg):
     lo = min(cen["rx"], cen["ry"])
     if lo > 0:
         cond = min(cond * max(1.0, r / lo), 6.4e5)
+    # endpoints that lie close together compared with the radii: an error in the endpoints (they are written with 12
+    # digits of the coordinate magnitude, and relative offsets accumulate) turns the chord by error / chord
+    chord = math.hypot(o["start"][0] - o["end"][0], o["start"][1] - o["end"][1])
+    if chord > 0:
+        cond = min(cond * max(1.0, r / chord), 6.4e7)
     return r, cond
 
 
